@@ -38,3 +38,51 @@ Definition out_same (ordered : bool) (m : result (list row)) (i : iout) : bool :
   | Err e, IErr c => err_code e =? c
   | _, _ => false
   end.
+
+(* ---------- comparison that ignores the element order of top-level lists ----------
+   `collect(e)` without ORDER BY has no defined element order (it is the row
+   enumeration order of the plan): for queries that use collect the columns that
+   are lists are compared as multisets.  Other queries keep the ordered comparison. *)
+Fixpoint remove_first_value (v : value) (l : list value) : option (list value) :=
+  match l with
+  | [] => None
+  | x :: t => if value_same v x then Some t
+              else match remove_first_value v t with Some t' => Some (x :: t') | None => None end
+  end.
+Fixpoint values_perm_eqb (a b : list value) : bool :=
+  match a with
+  | [] => match b with [] => true | _ => false end
+  | v :: a' => match remove_first_value v b with Some b' => values_perm_eqb a' b' | None => false end
+  end.
+Definition value_same_ul (a b : value) : bool :=
+  match a, b with
+  | VList l, VList r => values_perm_eqb l r
+  | _, _ => value_same a b
+  end.
+Fixpoint vals_same_ul (a b : list value) : bool :=
+  match a, b with
+  | [], [] => true
+  | x :: a', y :: b' => value_same_ul x y && vals_same_ul a' b'
+  | _, _ => false
+  end.
+Definition row_same_ul (a b : row) : bool := vals_same_ul (map snd a) (map snd b).
+Fixpoint remove_first_ul (r : row) (l : list row) : option (list row) :=
+  match l with
+  | [] => None
+  | x :: t => if row_same_ul r x then Some t
+              else match remove_first_ul r t with Some t' => Some (x :: t') | None => None end
+  end.
+Fixpoint rows_perm_eqb_ul (a b : list row) : bool :=
+  match a with
+  | [] => match b with [] => true | _ => false end
+  | r :: a' => match remove_first_ul r b with Some b' => rows_perm_eqb_ul a' b' | None => false end
+  end.
+(* `unordered_lists` = the query collects without fixing the order *)
+Definition out_same_ul (unordered_lists ordered : bool) (m : result (list row)) (i : iout) : bool :=
+  if unordered_lists then
+    match m, i with
+    | Ok a, IRows b => if ordered then list_eqb row_same_ul a b else rows_perm_eqb_ul a b
+    | Err e, IErr c => err_code e =? c
+    | _, _ => false
+    end
+  else out_same ordered m i.
